@@ -5,7 +5,7 @@ import json, os, re, subprocess, sys, tempfile, shutil
 root = "/verif/seeded"
 # The patches are applied in a scratch worktree of /repo at its current HEAD (same content as `git -C /repo apply …;
 # checks; git -C /repo checkout -- .`, but /repo itself is never touched, so nothing can be committed by accident).
-WT = "/tmp/recheck_wt"
+WT = os.environ.get("RECHECK_WT", "/tmp/recheck_wt")
 subprocess.run(["git", "-C", "/repo", "worktree", "remove", "--force", WT], capture_output=True)
 subprocess.run(["git", "-C", "/repo", "worktree", "add", "--detach", WT, "HEAD"], check=True, capture_output=True)
 res = []
